@@ -163,19 +163,19 @@ theorem analyze_exact_nt [DecidableEq M] {g : Game P M} (hg : GameOK g) (hb : Ev
       v = negamax g st.depth.toNat p ∧
       ∃ m rest c, ms = m :: rest ∧ g.apply p m = .ok c ∧ v = -(negamax g (st.depth.toNat - 1) c)) := by
   unfold analyze
-  have hget : ttGet { s with loads := 0, evals := 0, sorts := 0, rnds := 0 } (g.hash p) = .ok none := by
+  have hget : ttGet { s with loads := 0, evals := 0, sorts := 0, rnds := 0, wlog := [] } (g.hash p) = .ok none := by
     unfold ttGet; simp [hs]
   rw [hget]
-  show Sat (analyzeFrom g cfg o p (seedOf none) { s with loads := 0, evals := 0, sorts := 0, rnds := 0 }) _
+  show Sat (analyzeFrom g cfg o p (seedOf none) { s with loads := 0, evals := 0, sorts := 0, rnds := 0, wlog := [] }) _
   unfold analyzeFrom seedOf
   dsimp only
   have hfuel : cfg.depth + 1 ≤ (1 : Int) + ((cfg.depth - 0).toNat : Nat) := by omega
   have hinv : LoopInv g cfg p 1 (⟨[], 0, { depth := 0 }, 0, 0⟩ : ALoop M)
-      { s with loads := 0, evals := 0, sorts := 0, rnds := 0 } :=
+      { s with loads := 0, evals := 0, sorts := 0, rnds := 0, wlog := [] } :=
     ⟨hs, rfl, rfl, fun h => by omega⟩
   have hloop := analyzeLoop_spec hg hb hpr hnc hord p hov hlive (cfg.depth - 0).toNat 1 _ _ (by omega) hfuel hinv
   cases hr : analyzeLoop g cfg o p 0 (cfg.depth - 0).toNat 1 (⟨[], 0, { depth := 0 }, 0, 0⟩ : ALoop M)
-      { s with loads := 0, evals := 0, sorts := 0, rnds := 0 } with
+      { s with loads := 0, evals := 0, sorts := 0, rnds := 0, wlog := [] } with
   | error e => exact Sat.error
   | ok x =>
     obtain ⟨a, s'⟩ := x
